@@ -97,6 +97,300 @@ theorem sem_partial_of_step
     · unfold decode; rw [g]
     · rw [r.out]; exact sameData_refl _
 
---NEXT
+
+/-! ### definedness only grows -/
+
+def Mono (σ σ' : Store) : Prop := ∀ r, Dfd σ r → Dfd σ' r
+
+theorem Mono.refl (σ : Store) : Mono σ σ := fun _ h => h
+theorem Mono.trans {a b c : Store} (h1 : Mono a b) (h2 : Mono b c) : Mono a c :=
+  fun r h => h2 r (h1 r h)
+
+theorem mono_define (σ : Store) (p : Path) (k : Kind) : Mono σ (define σ p k) := by
+  intro r h
+  unfold Dfd
+  rw [kindAt_define]
+  by_cases e : p = r
+  · simp [e]
+  · simp [e]; exact h
+
+theorem dfd_define (σ : Store) (p : Path) (k : Kind) : Dfd (define σ p k) p := by
+  unfold Dfd; rw [kindAt_define]; simp
+
+theorem walkDotted_mono : ∀ (ks : List Name) (σ : Store) (cur : Path) (σ1 : Store) (q : Path),
+    walkDotted σ cur ks = .ok (σ1, q) → Mono σ σ1
+  | [], σ, cur, σ1, q, h => by
+    rw [walkDotted] at h; cases h; exact Mono.refl _
+  | k :: ks, σ, cur, σ1, q, h => by
+    rw [walkDotted] at h
+    split at h
+    · exact (mono_define _ _ _).trans (walkDotted_mono ks _ _ _ _ h)
+    · exact walkDotted_mono ks _ _ _ _ h
+    · cases h
+    · cases h
+
+mutual
+theorem defineVal_mono : ∀ (v : Val) (p : Path) (σ σ' : Store),
+    defineVal p v σ = .ok σ' → Mono σ σ' ∧ Dfd σ' p
+  | .sc a, p, σ, σ', h => by
+    rw [defineVal] at h; cases h
+    exact ⟨mono_define _ _ _, dfd_define _ _ _⟩
+  | .arr xs, p, σ, σ', h => by
+    rw [defineVal] at h
+    have := defineElems_mono xs p 0 _ _ h
+    exact ⟨(mono_define _ _ _).trans this, this _ (dfd_define _ _ _)⟩
+  | .inl kvs, p, σ, σ', h => by
+    rw [defineVal] at h
+    have := defineFields_mono kvs p _ _ h
+    exact ⟨(mono_define _ _ _).trans this, this _ (dfd_define _ _ _)⟩
+theorem defineElems_mono : ∀ (xs : List Val) (p : Path) (i : Nat) (σ σ' : Store),
+    defineElems p i xs σ = .ok σ' → Mono σ σ'
+  | [], p, i, σ, σ', h => by
+    rw [defineElems] at h; cases h; exact Mono.refl _
+  | x :: xs, p, i, σ, σ', h => by
+    rw [defineElems] at h
+    split at h
+    · cases h
+    · next σ1 h1 =>
+      exact (defineVal_mono x _ _ _ h1).1.trans (defineElems_mono xs _ _ _ _ h)
+theorem defineFields_mono : ∀ (kvs : List (List Name × Val)) (p : Path) (σ σ' : Store),
+    defineFields p kvs σ = .ok σ' → Mono σ σ'
+  | [], p, σ, σ', h => by
+    rw [defineFields] at h; cases h; exact Mono.refl _
+  | kv :: rest, p, σ, σ', h => by
+    rw [defineFields] at h
+    split at h
+    · cases h
+    · cases h
+    · next k σ1 q hl hw =>
+      simp only [] at h
+      split at h
+      · cases h
+      · split at h
+        · cases h
+        · next σ2 h2 =>
+          exact ((walkDotted_mono _ _ _ _ _ hw).trans (defineVal_mono kv.2 _ _ _ h2).1).trans
+            (defineFields_mono rest _ _ _ h)
+end
+
+
+
+/-! ### value-level simulation, general form
+
+`Hx σ s rkey p`: every key strictly below `rkey` the decoder would reject (an open array or a
+seen key) designates a defined path below `p`.  Under it the decoder accepts every value the
+specification accepts at `p`, and the seen keys it adds are `rkey ++ K` with `p ++ K`
+defined. -/
+
+def Hx (σ : Store) (s : St) (rkey p : Path) : Prop :=
+  ∀ K, K ≠ [] → ((findArray s.arrays (rkey ++ K)).isSome = true ∨ rkey ++ K ∈ s.seen) →
+    Dfd σ (p ++ K)
+
+def Cls (s : St) (σ : Store) (rkey p k : Path) : Prop :=
+  k ∈ s.seen ∨ ∃ K, K ≠ [] ∧ k = rkey ++ K ∧ Dfd σ (p ++ K)
+
+def New (s s' : St) (σ' : Store) (rkey p : Path) : Prop :=
+  s'.arrays = s.arrays ∧ ∀ k ∈ s'.seen, Cls s σ' rkey p k
+
+theorem Cls.mono {s : St} {σ σ' : Store} {rkey p k : Path} (h : Cls s σ rkey p k)
+    (hm : Mono σ σ') : Cls s σ' rkey p k := by
+  rcases h with h | ⟨K, hK, e, d⟩
+  · exact .inl h
+  · exact .inr ⟨K, hK, e, hm _ d⟩
+
+theorem Cls.lift {s : St} {σ : Store} {rkey p E k : Path} (h : Cls s σ (rkey ++ E) (p ++ E) k) :
+    Cls s σ rkey p k := by
+  rcases h with h | ⟨K, hK, e, d⟩
+  · exact .inl h
+  · refine .inr ⟨E ++ K, ?_, by rw [e, List.append_assoc], by rw [← List.append_assoc]; exact d⟩
+    intro h0; exact hK (List.append_eq_nil_iff.1 h0).2
+
+theorem New.refl (s : St) (σ : Store) (rkey p : Path) : New s s σ rkey p :=
+  ⟨rfl, fun _ hk => .inl hk⟩
+
+theorem New.trans {s s1 s2 : St} {σ1 σ2 : Store} {rkey p : Path} (h1 : New s s1 σ1 rkey p)
+    (h2 : New s1 s2 σ2 rkey p) (hm : Mono σ1 σ2) : New s s2 σ2 rkey p := by
+  refine ⟨h2.1.trans h1.1, ?_⟩
+  intro k hk
+  rcases h2.2 k hk with h | h
+  · exact (h1.2 k h).mono hm
+  · exact .inr h
+
+theorem Hx.step {σ σ1 : Store} {s s1 : St} {rkey p : Path} (h : Hx σ s rkey p)
+    (hm : Mono σ σ1) (hn : New s s1 σ1 rkey p) : Hx σ1 s1 rkey p := by
+  intro K hK hb
+  rcases hb with hb | hb
+  · rw [hn.1] at hb; exact hm _ (h K hK (.inl hb))
+  · rcases hn.2 _ hb with h1 | ⟨K0, _, e, d⟩
+    · exact hm _ (h K hK (.inr h1))
+    · rw [List.append_cancel_left e]; exact d
+
+theorem Hx.nest {σ : Store} {s : St} {rkey p : Path} (h : Hx σ s rkey p) (E : Path) :
+    Hx σ s (rkey ++ E) (p ++ E) := by
+  intro K hK hb
+  rw [List.append_assoc] at hb ⊢
+  exact h (E ++ K) (fun h0 => hK (List.append_eq_nil_iff.1 h0).2) hb
+
+mutual
+theorem decExpr_gen : ∀ (v : Val) (rkey p : Path) (s : St) (σ σ' : Store),
+    defineVal p v σ = .ok σ' → Hx σ s rkey p →
+    ∃ s', decodeExpr rkey p v s = .ok s' ∧ New s s' σ' rkey p
+  | .sc a, rkey, p, s, σ, σ', hd, hx => by
+    rw [decodeExpr]
+    exact ⟨_, rfl, rfl, fun _ hk => .inl hk⟩
+  | .arr xs, rkey, p, s, σ, σ', hd, hx => by
+    rw [defineVal] at hd
+    rw [decodeExpr]
+    have hx0 : Hx (define σ p .value) { s with out := s.out ++ [(p, Leaf.arr)] } rkey p :=
+      fun K hK hb => mono_define _ _ _ _ (hx K hK hb)
+    obtain ⟨s', h1, n1⟩ := decElems_gen xs rkey p 0 _ _ _ hd hx0
+    exact ⟨s', h1, n1⟩
+  | .inl kvs, rkey, p, s, σ, σ', hd, hx => by
+    rw [defineVal] at hd
+    rw [decodeExpr]
+    have hx0 : Hx (define σ p .value) { s with out := s.out ++ [(p, Leaf.tbl)] } rkey p :=
+      fun K hK hb => mono_define _ _ _ _ (hx K hK hb)
+    obtain ⟨s', h1, n1⟩ := decFields_gen kvs rkey p _ _ _ hd hx0
+    exact ⟨s', h1, n1⟩
+theorem decElems_gen : ∀ (xs : List Val) (rkey p : Path) (i : Nat) (s : St) (σ σ' : Store),
+    defineElems p i xs σ = .ok σ' → Hx σ s rkey p →
+    ∃ s', decodeElems rkey p i xs s = .ok s' ∧ New s s' σ' rkey p
+  | [], rkey, p, i, s, σ, σ', hd, hx => by
+    rw [defineElems] at hd; cases hd
+    rw [decodeElems]
+    exact ⟨s, rfl, New.refl _ _ _ _⟩
+  | x :: xs, rkey, p, i, s, σ, σ', hd, hx => by
+    rw [defineElems] at hd
+    split at hd
+    · cases hd
+    · next σ1 hd1 =>
+      obtain ⟨s1, h1, n1⟩ := decExpr_gen x (rkey ++ [.idx i]) (p ++ [.idx i]) s σ σ1 hd1
+        (hx.nest _)
+      have n1' : New s s1 σ1 rkey p := ⟨n1.1, fun k hk => (n1.2 k hk).lift⟩
+      have m1 := (defineVal_mono x _ _ _ hd1).1
+      obtain ⟨s2, h2, n2⟩ := decElems_gen xs rkey p (i + 1) s1 σ1 σ' hd (hx.step m1 n1')
+      refine ⟨s2, ?_, n1'.trans n2 (defineElems_mono _ _ _ _ _ hd)⟩
+      rw [decodeElems, h1]; exact h2
+theorem decFields_gen : ∀ (kvs : List (List Name × Val)) (rkey p : Path) (s : St) (σ σ' : Store),
+    defineFields p kvs σ = .ok σ' → Hx σ s rkey p →
+    ∃ s', decodeFields rkey p kvs s = .ok s' ∧ New s s' σ' rkey p
+  | [], rkey, p, s, σ, σ', hd, hx => by
+    rw [defineFields] at hd; cases hd
+    rw [decodeFields]
+    exact ⟨s, rfl, New.refl _ _ _ _⟩
+  | kv :: rest, rkey, p, s, σ, σ', hd, hx => by
+    rw [defineFields] at hd
+    split at hd
+    · cases hd
+    · cases hd
+    · next k σ1 q hl hw =>
+      simp only [] at hd
+      split at hd
+      · cases hd
+      · next hnone =>
+        split at hd
+        · cases hd
+        · next σ2 hd2 =>
+          obtain ⟨hq, -, -⟩ := walkDotted_spec _ _ _ _ _ hw
+          have m01 := walkDotted_mono _ _ _ _ _ hw
+          have hleaf : q ++ [Seg.key k] = p ++ keyPath kv.1 := by
+            rw [hq, List.append_assoc]
+            congr 1
+            have := dropLast_getLast? _ _ hl
+            rw [← this]; simp [keyPath]
+          rw [hleaf] at hnone hd2
+          have hE : keyPath kv.1 ≠ [] := by
+            intro h0
+            have : kv.1 = [] := by simpa [keyPath] using h0
+            rw [this] at hl; cases hl
+          have hbad : ∀ (_ : (findArray s.arrays (rkey ++ keyPath kv.1)).isSome = true ∨
+              rkey ++ keyPath kv.1 ∈ s.seen), False := by
+            intro hb
+            exact m01 _ (hx _ hE hb) hnone
+          have m12 := defineVal_mono kv.2 _ _ _ hd2
+          have hx1 : Hx σ1 { s with seen := (rkey ++ keyPath kv.1) :: s.seen }
+              (rkey ++ keyPath kv.1) (p ++ keyPath kv.1) := by
+            intro K hK hb
+            rcases hb with hb | hb
+            · exact m01 _ ((hx.nest _) K hK (.inl hb))
+            · rcases List.mem_cons.1 hb with e | e
+              · exfalso
+                have := congrArg List.length e
+                simp at this
+                exact hK this
+              · exact m01 _ ((hx.nest _) K hK (.inr e))
+          obtain ⟨s1, h1, n1⟩ := decExpr_gen kv.2 _ _ _ σ1 σ2 hd2 hx1
+          have n1' : New s s1 σ2 rkey p := by
+            refine ⟨n1.1, ?_⟩
+            intro k' hk'
+            rcases n1.2 k' hk' with h | h
+            · rcases List.mem_cons.1 h with e | e
+              · exact .inr ⟨keyPath kv.1, hE, e, m12.2⟩
+              · exact .inl e
+            · exact Cls.lift (.inr h)
+          obtain ⟨s2, h2, n2⟩ := decFields_gen rest rkey p s1 σ2 σ' hd
+            (hx.step (m01.trans m12.1) n1')
+          refine ⟨s2, ?_, n1'.trans n2 (defineFields_mono _ _ _ _ hd)⟩
+          rw [decodeFields]
+          rw [if_neg (fun h => hbad (.inl h)),
+            if_neg (fun h => hbad (.inr (by simpa using h)))]
+          simp only [h1]
+          exact h2
+end
+
+
+
+/-! ### resolution along stages that are not arrays of tables; transport of the relation -/
+
+theorem enter_of_not {σ : Store} {p : Path} (h : ¬ isAotP σ p) : enter σ p = p :=
+  enter_not (fun n hn => h ⟨n, hn⟩)
+
+theorem res_noaot (σ : Store) : ∀ (K p : Path),
+    (∀ K' a K'', K = K' ++ Seg.key a :: K'' → ¬ isAotP σ (p ++ K')) → res σ p K = p ++ K
+  | [], p, _ => by simp [res]
+  | .key a :: K, p, h => by
+    rw [res, enter_of_not (by simpa using h [] a K rfl), res_noaot σ K]
+    · simp
+    · intro K' b K'' e
+      have := h (.key a :: K') b K'' (by rw [e]; rfl)
+      simpa using this
+  | .idx i :: K, p, h => by
+    rw [res, res_noaot σ K]
+    · simp
+    · intro K' b K'' e
+      have := h (.idx i :: K') b K'' (by rw [e]; rfl)
+      simpa using this
+
+theorem isAotP_congr {σ σ' : Store} (h : SameAot σ σ') (r : Path) : isAotP σ r ↔ isAotP σ' r :=
+  ⟨fun ⟨n, hn⟩ => ⟨n, (h r n).1 hn⟩, fun ⟨n, hn⟩ => ⟨n, (h r n).2 hn⟩⟩
+
+theorem ArrOk.transport {σ σ' : Store} {a : OpenArr} (h : ArrOk σ a) (sa : SameAot σ σ') :
+    ArrOk σ' a :=
+  ⟨h.pure, by rw [← res_congr sa]; exact h.list, (sa _ _).1 h.kind, h.pos, h.last⟩
+
+/-- the components of `Rel` that depend on the store only through its arrays of tables and
+its header/value paths survive every store extension that keeps those -/
+theorem Rel.transport {σs : SSt} {s : St} (hr : Rel σs s) {σ' : Store}
+    (sa : SameAot σs.store σ') (st : Stable σs.store σ') :
+    res σ' [] s.curKey = σs.cur ∧ ¬ isAotP σ' σs.cur ∧
+    (∀ a ∈ s.arrays, ArrOk σ' a) ∧
+    (∀ hs : List Name, isAotP σ' (res σ' [] (keyPath hs)) → ∃ a ∈ s.arrays, a.rkey = keyPath hs) ∧
+    (∀ k ∈ s.seen, HV σ' (res σ' [] k)) ∧
+    (∀ k ∈ s.seen, ∀ k1 a k2, k = k1 ++ Seg.key a :: k2 → isAotP σ' (res σ' [] k1) → PureKey k1) ∧
+    AotKey σ' := by
+  refine ⟨by rw [← res_congr sa]; exact hr.curRes, fun h => hr.curNA ((isAotP_congr sa _).2 h),
+    fun a ha => (hr.arrOk a ha).transport sa, ?_, ?_, ?_, ?_⟩
+  · intro hs h
+    rw [← res_congr sa] at h
+    exact hr.arrAll hs ((isAotP_congr sa _).2 h)
+  · intro k hk
+    rw [← res_congr sa]; exact st _ (hr.seenHV k hk)
+  · intro k hk k1 a k2 e h
+    rw [← res_congr sa] at h
+    exact hr.seenPure k hk k1 a k2 e ((isAotP_congr sa _).2 h)
+  · intro r h
+    exact hr.aotKey r ((isAotP_congr sa _).2 h)
+
+
 
 end CueVerif.Toml
